@@ -562,3 +562,20 @@ def method_switch_in_an_empty_year(rng: random.Random) -> Tuple[Dict[str, Any], 
         b.dispose(t + timedelta(days=30), 1, 330)
     schedule = {1970: m1, year + rng.randint(1, gap): m2}
     return b.done(rng, shuffle=rng.random() < 0.5), schedule
+
+
+def tiny_fee_transfer(rng: random.Random, asset: str = "AAA") -> Dict[str, Any]:
+    """A transfer whose non-zero crypto fee is worth less than 5e-14 in fiat (a 1e-11 .. 9e-11 fee of a sub-cent coin): RP2 does not
+    treat it as a taxable event (known finding KF4 of C03). Reports must then say so consistently everywhere."""
+    b = HB(asset=asset, exchanges=EXCHANGES[:2], holders=HOLDERS[:1])
+    ho = HOLDERS[0]
+    t = T(rng.randint(2016, 2021), rng.randint(1, 12), rng.randint(1, 28))
+    b.acquire(t, rng.choice((10, 1000, 250000)), rng.choice(("0.004", "0.0004", "0.00049")))
+    t += timedelta(days=rng.randint(1, 60))
+    fee = Q11 * rng.randint(1, 9)
+    sent = Decimal(rng.choice((1, 5, 100)))
+    b.move(t, sent, sent - fee, rng.choice(("0.004", "0.0005", "0.00002")), (EXCHANGES[0], ho), (EXCHANGES[1], ho))
+    if rng.random() < 0.6:
+        b.move(t + timedelta(days=3), 1, Decimal(1) - Decimal("0.001"), "0.004", (EXCHANGES[0], ho), (EXCHANGES[1], ho))  # an ordinary fee next to it
+    b.dispose(t + timedelta(days=rng.randint(5, 400)), rng.choice((1, 2)), rng.choice(("0.006", "0.01")))
+    return b.done(rng, shuffle=rng.random() < 0.5)
